@@ -22,7 +22,7 @@ ASSUMPTIONS = ["exact rational arithmetic (fractions) for all predicates", "quer
 FLOORS = {'quick': {'ray-status': 1500, 'ray-params': 500, 'is_left': 1500, 'wn_poly': 5000, 'hull': 300, 'voxel-fill': 1500,
                     'voxel-cover': 500, 'find_ctrlpts': 300},
           'thorough': {'ray-status': 15000, 'wn_poly': 50000, 'hull': 3000, 'voxel-fill': 15000}}
-MANDATORY_TAGS = ['ray:cross2d', 'ray:cross3d', 'ray:parallel', 'ray:coincident', 'ray:skew', 'poly:star', 'poly:orthogonal',
+MANDATORY_TAGS = ['ray:cross2d', 'ray:cross3d', 'ray:parallel', 'ray:coincident', 'ray:skew', 'ray:generic-cross2d', 'ray:generic-cross3d', 'ray:coords<=1000', 'ray:scale=2^-24', 'ray:scale=2^20', 'poly:star', 'poly:orthogonal',
                   'poly:cw', 'poly:ccw', 'hull:collinear', 'vox:surface', 'vox:volume', 'vox:cubes', 'find:unnormalized']
 TECHNIQUE = ("runtime monitoring: exact-arithmetic oracles (orientation, crossing parity, definitional hull test, exact line "
              "intersection, point-in-box) on every predicate / query call of a constructed-class workload")
@@ -34,6 +34,7 @@ def gen(rng, tier, shard, nshards):
     n = 60 if tier == 'quick' else 500
     for i in range(n):
         yield {'kind': 'rays', 'seed': rng.randrange(1 << 30)}
+        yield {'kind': 'rays-generic', 'seed': rng.randrange(1 << 30)}
         yield {'kind': 'poly', 'seed': rng.randrange(1 << 30), 'cls': rng.choice(['star', 'orthogonal'])}
         yield {'kind': 'hull', 'seed': rng.randrange(1 << 30)}
         if i % 2 == 0:
@@ -44,7 +45,7 @@ def gen(rng, tier, shard, nshards):
 
 def check(case, ctx):
     ctx.nontriv(True)
-    return {'rays': check_rays, 'poly': check_poly, 'hull': check_hull, 'voxel': check_voxel,
+    return {'rays': check_rays, 'rays-generic': check_rays_generic, 'poly': check_poly, 'hull': check_hull, 'voxel': check_voxel,
             'find_ctrlpts': check_find}[case['kind']](case, ctx)
 
 
@@ -142,6 +143,103 @@ def check_rays(case, ctx):
         ex = ref.orient(a[:2], b[:2], qf)
         if abs(ex) > F(1, 10 ** 6):
             ctx.check((got > 0) == (ex > 0), 'is_left/sign', 'is_left sign wrong for float query %r' % (qf,), what='is_left')
+
+
+def check_rays_generic(case, ctx):
+    """integer end points up to 10 / 100 / 1000 (times an exact power-of-two scale): lines that plainly cross at an integer point
+    with generic (non-dyadic) parameters, generic 2-D pairs (which can never be skew), skew pairs, and coincident rays whose
+    documented parameters are checked (ray1.eval(t1) == ray2.p, ray2.eval(t2) == ray1.p)"""
+    from geomdl import ray
+    import math
+    rng = random.Random(case['seed'])
+    RI = ray.RayIntersection
+    for rep in range(30):
+        dim = rng.choice([2, 3])
+        M = rng.choice([10, 100, 1000])
+        sc = 2.0 ** rng.choice([0, 0, 0, -24, -10, 10, 20])
+        cls = rng.choice(['cross-int', 'cross-int', 'generic', 'skew', 'coincident'])
+
+        def P(m=M):
+            return [rng.randint(-m, m) for _ in range(dim)]
+        if cls == 'cross-int':
+            X = P()
+            d1, d2 = P(max(2, M // 10)), P(max(2, M // 10))
+            if not any(cross3(d1 + [0] * (3 - dim), d2 + [0] * (3 - dim))):
+                continue
+            k1, m1, k2, m2 = rng.randint(-5, 5), rng.choice([1, 2, 3, 5, 7]), rng.randint(-5, 5), rng.choice([1, 2, 3, 5, 7])
+            a = [x - k1 * e for x, e in zip(X, d1)]
+            b = [x + m1 * e for x, e in zip(a, d1)]
+            c = [x - k2 * e for x, e in zip(X, d2)]
+            d = [x + m2 * e for x, e in zip(c, d2)]
+        elif cls == 'generic':
+            a, b, c, d = P(), P(), P(), P()
+            if a == b or c == d:
+                continue
+            if dim == 3 and rng.random() < 0.5:
+                # coplanar on purpose: d on the plane through a, b, c (integer combination)
+                i, j = rng.randint(-3, 3), rng.randint(-3, 3)
+                d = [cc + i * (bb - aa) + j * (cc - aa) for aa, bb, cc in zip(a, b, c)]
+                if c == d:
+                    continue
+        elif cls == 'skew':
+            if dim == 2:
+                continue
+            a, b, c, d = P(), P(), P(), P()
+            if a == b or c == d:
+                continue
+        else:
+            a, b = P(), P()
+            if a == b:
+                continue
+            d1 = [y - x for x, y in zip(a, b)]
+            if rng.random() < 0.5:
+                # axis-parallel in a random coordinate (first component of the direction is often zero)
+                ax = rng.randrange(dim)
+                b = [x if i != ax else x + rng.choice([-3, -1, 2, 5]) for i, x in enumerate(a)]
+                d1 = [y - x for x, y in zip(a, b)]
+            s_, k = rng.randint(-3, 3), rng.choice([-2, -1, 1, 2])
+            c = [x + s_ * dd for x, dd in zip(a, d1)]
+            d = [x + k * dd for x, dd in zip(c, d1)]
+        fa, fb, fc, fd = ([x * sc for x in v] for v in (a, b, c, d))     # exact: integers times a power of two
+        r1, r2 = ray.Ray(fa, fb), ray.Ray(fc, fd)
+        t1g, t2g, st = ray.intersect(r1, r2)
+        e1 = [F(y) - F(x) for x, y in zip(a, b)] + [F(0)] * (3 - dim)
+        e2 = [F(y) - F(x) for x, y in zip(c, d)] + [F(0)] * (3 - dim)
+        pd = [F(y) - F(x) for x, y in zip(a, c)] + [F(0)] * (3 - dim)
+        cr = cross3(e1, e2)
+        desc = 'intersect(Ray(%r,%r), Ray(%r,%r)) [integers x %r]' % (a, b, c, d, sc)
+        ctx.tag('ray:coords<=%d' % M, 'ray:scale=2^%d' % round(math.log2(sc)))
+        if not any(cr):
+            on_line = not any(cross3(pd, e1))
+            ctx.tag('ray:coincident' if on_line else 'ray:parallel')
+            if not ctx.check(st == RI.COLINEAR, 'ray/status', '%s: status %r, exact arithmetic says COLINEAR' % (desc, st), what='ray-status'):
+                continue
+            if on_line:
+                p1, p2 = r1.eval(t1g), r2.eval(t2g)
+                tolp = 1e-9 * sc * M
+                ok = all(abs(u - v) <= tolp for u, v in zip(p1, fc)) and all(abs(u - v) <= tolp for u, v in zip(p2, fa))
+                ctx.check(ok, 'ray/colinear-params', '%s = (%r, %r, COLINEAR): documented ray1.eval(t1) == ray2.p and ray2.eval(t2) == ray1.p, '
+                          'got %r vs %r and %r vs %r' % (desc, t1g, t2g, p1, fc, p2, fa), what='ray-colinear-params')
+            continue
+        triple = sum(p_ * q_ for p_, q_ in zip(pd, cr))
+        exp = RI.INTERSECT if triple == 0 else RI.SKEW
+        ctx.tag(('ray:generic-cross%dd' % dim) if exp == RI.INTERSECT else 'ray:skew')
+        if not ctx.check(st == exp, 'ray/status', '%s: status %r, exact arithmetic says %r' % (desc, st, exp), what='ray-status'):
+            continue
+        if exp == RI.INTERSECT:
+            n2 = sum(x * x for x in cr)
+            x1 = sum(p_ * q_ for p_, q_ in zip(cross3(pd, e2), cr)) / n2
+            x2 = sum(p_ * q_ for p_, q_ in zip(cross3(pd, e1), cr)) / n2
+            # conditioning of the parameters: |p_diff| / (|d| sin(angle))
+            l1, l2, lp = (math.sqrt(float(sum(x * x for x in v))) for v in (e1, e2, pd))
+            sin_ = math.sqrt(float(n2)) / (l1 * l2)
+            tol1, tol2 = 1e-9 * max(1.0, lp / l1 / sin_), 1e-9 * max(1.0, lp / l2 / sin_)
+            ok = abs(F(t1g) - x1) <= tol1 and abs(F(t2g) - x2) <= tol2
+            X_ = [float(F(x) + x1 * F(e)) * sc for x, e in zip(a, e1)]
+            p1, p2 = r1.eval(t1g), r2.eval(t2g)
+            tolp = 1e-9 * sc * max(M, max(abs(x) for x in X_) / sc)
+            ok = ok and all(abs(u - v) <= tolp for u, v in zip(p1, p2)) and all(abs(u - v) <= tolp for u, v in zip(p1, X_))
+            ctx.check(ok, 'ray/params', '%s = (%r, %r); exact parameters (%s, %s)' % (desc, t1g, t2g, x1, x2), what='ray-params')
 
 
 # -- polygons -----------------------------------------------------------------------------------------------------------------
